@@ -16,11 +16,13 @@ import (
 	"bytes"
 	"fmt"
 	"os"
+	"path"
 	"path/filepath"
 	"sort"
 	"sync"
 
 	"github.com/aergoio/aergo-lib/db"
+	"github.com/aergoio/aergo/v2/state/statedb"
 	"github.com/aergoio/aergo/v2/types/dbkey"
 )
 
@@ -304,13 +306,261 @@ func (e *vEngine) note(s string) {
 	}
 }
 
+// ---- "verifjdb": journaling store registered as an aergo-lib DB implementation type, so that
+// a node can be started on journaling stores BEFORE cdb.Init / sdb.Init issue their first write
+// (RecoverChainMapping runs inside cdb.Init).  The constructor looks the directory up in vJdbDirs,
+// which the engine fills before calling NewChainService with cfg.DbType = "verifjdb".
+
+const vJdbType = "verifjdb"
+
+var (
+	vJdbOnce sync.Once
+	vJdbMu   sync.Mutex
+	vJdbDirs = map[string]*jdb{}
+)
+
+func vJdbRegister() {
+	vJdbOnce.Do(func() {
+		db.VerifRegister(db.ImplType(vJdbType), func(dir string, opts ...db.Option) (db.DB, error) {
+			vJdbMu.Lock()
+			defer vJdbMu.Unlock()
+			d, ok := vJdbDirs[path.Clean(dir)]
+			if !ok {
+				return nil, fmt.Errorf("verifjdb: no store prepared for %s", dir)
+			}
+			return d, nil
+		})
+	})
+}
+
+func vCopyMap(m map[string][]byte) map[string][]byte {
+	c := make(map[string][]byte, len(m))
+	for k, v := range m {
+		c[k] = v
+	}
+	return c
+}
+
+// newJournaledNode starts a real ChainService whose chain and state stores are journaling
+// stores preloaded with (cm, sm); every write from the first one on is recorded in j.
+func (e *vEngine) newJournaledNode(dir string, cm, sm map[string][]byte, j *journal) (n *vNode, cj, sj *jdb, perr string) {
+	vJdbRegister()
+	cj = &jdb{m: vCopyMap(cm), name: "chain", j: j}
+	sj = &jdb{m: vCopyMap(sm), name: "state", j: j}
+	cdir, sdir := path.Join(dir, dbkey.ChainDBName), path.Join(dir, statedb.StateName)
+	vJdbMu.Lock()
+	vJdbDirs[cdir], vJdbDirs[sdir] = cj, sj
+	vJdbMu.Unlock()
+	defer func() {
+		vJdbMu.Lock()
+		delete(vJdbDirs, cdir)
+		delete(vJdbDirs, sdir)
+		vJdbMu.Unlock()
+	}()
+	n, perr = e.newNodeT(dir, vJdbType)
+	return
+}
+
+func vUnitClasses(u *jUnit, x *vCtx) []string {
+	classes := []string{}
+	for _, op := range u.Ops {
+		var cl string
+		if u.Store == "chain" {
+			cl = vClassChain(op.Key, x)
+		} else {
+			cl = vClassState(op.Key, op.Val)
+		}
+		if op.Del {
+			cl = "-" + cl
+		}
+		classes = append(classes, cl)
+	}
+	return classes
+}
+
+func vUnitsJSON(units []jUnit, x *vCtx) []interface{} {
+	uj := []interface{}{}
+	for i := range units {
+		uj = append(uj, map[string]interface{}{"store": units[i].Store, "kind": units[i].Kind, "classes": vUnitClasses(&units[i], x)})
+	}
+	return uj
+}
+
+// vCanonUnits sorts, by key, the ops of every unit that consists of deletes only.  The real
+// code builds such bulks from a Go map (swapTxMapping: "for _, oldTx := range oldTxs
+// { bulk.Delete }"), so their op order is random from run to run; deletes of distinct keys commute,
+// the sorted order is one of the possible real orders and keeps the inner cuts reproducible.
+func vCanonUnits(units []jUnit) []jUnit {
+	for i := range units {
+		all := len(units[i].Ops) > 1
+		for _, op := range units[i].Ops {
+			if !op.Del {
+				all = false
+			}
+		}
+		if all {
+			ops := append([]jOp{}, units[i].Ops...)
+			sort.Slice(ops, func(a, b int) bool { return ops[a].Key < ops[b].Key })
+			units[i].Ops = ops
+		}
+	}
+	return units
+}
+
+// vCut is a crash point: the first k units and, when p > 0, the first p ops of unit k.
+type vCut struct{ k, p int }
+
+// vCuts lists the crash points of a journal: every unit boundary k = 0..n and, according to
+// partial ("none" | "ends" | "all"), the cuts inside every bulk unit with at least two ops.
+func vCuts(units []jUnit, partial string) []vCut {
+	var cuts []vCut
+	for k := 0; k <= len(units); k++ {
+		cuts = append(cuts, vCut{k, 0})
+		if k == len(units) || units[k].Kind != "bulk" || len(units[k].Ops) < 2 {
+			continue
+		}
+		n := len(units[k].Ops)
+		switch partial {
+		case "ends":
+			cuts = append(cuts, vCut{k, 1})
+			if n-1 > 1 {
+				cuts = append(cuts, vCut{k, n - 1})
+			}
+		case "all":
+			for p := 1; p < n; p++ {
+				cuts = append(cuts, vCut{k, p})
+			}
+		}
+	}
+	return cuts
+}
+
+// vContents = base + units[0..k-1] + first p ops of unit k.
+func vContents(baseChain, baseState map[string][]byte, units []jUnit, cut vCut) (map[string][]byte, map[string][]byte) {
+	c, s := replayUnits(baseChain, baseState, units, cut.k)
+	if cut.p > 0 && cut.k < len(units) {
+		m := c
+		if units[cut.k].Store == "state" {
+			m = s
+		}
+		for _, op := range units[cut.k].Ops[:cut.p] {
+			if op.Del {
+				delete(m, op.Key)
+			} else {
+				m[op.Key] = op.Val
+			}
+		}
+	}
+	return c, s
+}
+
+func vBestOf(cs *ChainService) string {
+	if b, _ := cs.GetBestBlock(); b != nil {
+		return hx(b.BlockHash())
+	}
+	return ""
+}
+
+// restart starts a real node on plain memorydb files holding (cm, sm) and runs cs.Recover() as
+// ChainService.Receive does on its first message; it fills init_panic / recover_err / best /
+// pred / sdbroot / marker_after of rec.  The caller stops the node and removes dir.
+func (e *vEngine) restart(x *vCtx, cm, sm map[string][]byte, rec map[string]interface{}, what string) (r *vNode, dir string) {
+	rec["init_panic"], rec["recover_err"], rec["best"], rec["pred"], rec["marker_after"] = "", "", "", []string{}, false
+	e.seq++
+	dir = filepath.Join(e.tmp, fmt.Sprintf("crash-%d", e.seq))
+	if err := vWriteSnapshot(dir, cm, sm); err != nil {
+		rec["init_panic"] = "engine: " + err.Error()
+		return nil, dir
+	}
+	e.note(what)
+	r, perr := e.newNode(dir)
+	if r == nil {
+		rec["init_panic"] = perr
+		return nil, dir
+	}
+	e.afterStart(r, x, rec)
+	return r, dir
+}
+
+func (e *vEngine) afterStart(r *vNode, x *vCtx, rec map[string]interface{}) {
+	if x.c.OrphanCap >= 1 && x.c.OrphanCap <= 100 {
+		r.cs.op = NewOrphanPool(x.c.OrphanCap)
+	}
+	if err := r.cs.Recover(); err != nil {
+		rec["recover_err"] = err.Error()
+	}
+	r.cs.setRecovered(true)
+	rec["best"] = vBestOf(r.cs)
+	pred, _ := e.predicates(r, x)
+	_, p3 := e.rawScan(r, x)
+	pred = append(pred, p3...)
+	if pred == nil {
+		pred = []string{}
+	}
+	rec["pred"] = pred
+	rec["sdbroot"] = hx(r.cs.sdb.GetRoot())
+	rec["marker_after"] = len(r.cs.cdb.store.Get(dbkey.ReOrg())) != 0
+}
+
+// recrash: crash DURING the recovery of (cm, sm) (contents that hold a reorg marker).  The
+// recovery is first run to completion on journaling stores (units2 = every write of Init and
+// Recover), then every prefix of units2 (mode "ops": also every cut inside a bulk) is restarted
+// once more on plain memorydb files and must end in the same store contents.
+func (e *vEngine) recrash(x *vCtx, cm, sm map[string][]byte, rec map[string]interface{}, mode, what string) {
+	classC := func(k string, v []byte) string { return vClassChain(k, x) }
+	e.seq++
+	dir := filepath.Join(e.tmp, fmt.Sprintf("crash-%d", e.seq))
+	defer os.RemoveAll(dir)
+	j2 := newJournal()
+	e.note(what + " level2 journaled recovery")
+	n2, cj, sj, perr := e.newJournaledNode(dir, cm, sm, j2)
+	if n2 == nil {
+		rec["recrash_error"] = "journaled init panic: " + perr
+		return
+	}
+	r2 := map[string]interface{}{"recover_err": ""}
+	e.afterStart(n2, x, r2)
+	n2.stop()
+	units2 := vCanonUnits(j2.units[:len(j2.units):len(j2.units)])
+	d2c, d2s := cj.snapshot(), sj.snapshot()
+	rec["units2"] = vUnitsJSON(units2, x)
+	rec["recover2"] = r2
+	partial := "none"
+	if mode == "ops" {
+		partial = "all"
+	}
+	list := []interface{}{}
+	for _, cut := range vCuts(units2, partial) {
+		rr := map[string]interface{}{"k2": cut.k, "p2": cut.p, "same_final": false, "unit2_classes": []string{}}
+		if cut.k < len(units2) {
+			rr["unit2_classes"] = vUnitClasses(&units2[cut.k], x)
+		}
+		list = append(list, rr)
+		cm2, sm2 := vContents(cm, sm, units2, cut)
+		r, d := e.restart(x, cm2, sm2, rr, fmt.Sprintf("%s level2 k2=%d p2=%d", what, cut.k, cut.p))
+		if r != nil {
+			dc := vStoreDiff(dumpStore(r.cs.cdb.store), d2c, classC)
+			ds := vStoreDiff(dumpStore(r.cs.sdb.VerifStore()), d2s, vClassState)
+			rr["same_final"] = len(dc) == 0 && len(ds) == 0
+			if len(dc)+len(ds) > 0 {
+				rr["diff"] = map[string]interface{}{"chain": dc, "state": ds}
+			}
+			r.stop()
+		}
+		os.RemoveAll(d)
+	}
+	rec["recrash"] = list
+}
+
 // runCrash: crash-free run on journaling stores, then a real restart (NewChainService on the
-// memorydb files of base + first k units, stub consensus, cs.Recover() as ChainService.Receive
-// does on its first message) for every k in 0..n, then a replay of all arrivals.
+// memorydb files of base + first k units [+ first p ops of a bulk unit], stub consensus,
+// cs.Recover() as ChainService.Receive does on its first message) for every crash point, then
+// a replay (twice) of all arrivals; optionally a second crash during the recovery (recrash).
 //
-// cs.Recover() ends the process with exit code 10 when it panics (RecoverExit) and Core.init
-// ends it with logger.Fatal when the chain DB cannot be loaded; the engine cannot intercept
-// that, so "<VERIF_OUT>.progress" always names the case and k being restarted.
+// cs.Recover() ends the process with exit code 10 when it panics (RecoverExit); the engine
+// cannot intercept that, so "<VERIF_OUT>.progress" always names the case and point being
+// restarted.  logger.Fatal of package chain (Core.init: "failed to initialize chaindb") is turned
+// into a panic by a logger hook (see vHookLogger) and reported as init_panic.
 func (e *vEngine) runCrash(x *vCtx, out map[string]interface{}) {
 	c := x.c
 	n, perr := e.newNode(e.baseDir)
@@ -330,26 +580,20 @@ func (e *vEngine) runCrash(x *vCtx, out map[string]interface{}) {
 	n.cs.sdb.VerifSetStore(sj)
 	baseChain, baseState := cj.snapshot(), sj.snapshot()
 
-	bestOf := func(cs *ChainService) string {
-		if b, _ := cs.GetBestBlock(); b != nil {
-			return hx(b.BlockHash())
-		}
-		return ""
-	}
 	unitBest := []string{}
-	j.hook = func() { unitBest = append(unitBest, bestOf(n.cs)) }
+	j.hook = func() { unitBest = append(unitBest, vBestOf(n.cs)) }
 
-	bests := []string{bestOf(n.cs)} // bests[i] = best before arrival i, bests[i+1] = after
+	bests := []string{vBestOf(n.cs)} // bests[i] = best before arrival i, bests[i+1] = after
 	steps := []interface{}{}
 	for i := range c.Arrivals {
 		j.arrival = i
 		steps = append(steps, e.arrive(n, x, i))
-		bests = append(bests, bestOf(n.cs))
+		bests = append(bests, vBestOf(n.cs))
 	}
 	j.arrival = -1
 	j.hook = nil
 	out["steps"] = steps
-	units := j.units[:len(j.units):len(j.units)]
+	units := vCanonUnits(j.units[:len(j.units):len(j.units)])
 	// "A run without the crash" that is fed the same blocks again: the reference for convergence is the
 	// crash-free node after a SECOND delivery of all arrivals (a block dropped by the first-wins orphan
 	// pool in the first pass is connected in the second one, exactly as on the restarted node).
@@ -359,26 +603,11 @@ func (e *vEngine) runCrash(x *vCtx, out map[string]interface{}) {
 	out["final"] = e.final(n, x)
 	fChain, fState := cj.snapshot(), sj.snapshot()
 
-	uj := []interface{}{}
 	ua := []int{}
 	for _, u := range units {
-		classes := []string{}
-		for _, op := range u.Ops {
-			var cl string
-			if u.Store == "chain" {
-				cl = vClassChain(op.Key, x)
-			} else {
-				cl = vClassState(op.Key, op.Val)
-			}
-			if op.Del {
-				cl = "-" + cl
-			}
-			classes = append(classes, cl)
-		}
-		uj = append(uj, map[string]interface{}{"store": u.Store, "kind": u.Kind, "classes": classes})
 		ua = append(ua, u.Arrival)
 	}
-	out["units"] = uj
+	out["units"] = vUnitsJSON(units, x)
 	out["unit_arrival"] = ua
 	out["unit_best"] = unitBest
 	out["bests"] = bests
@@ -389,42 +618,25 @@ func (e *vEngine) runCrash(x *vCtx, out map[string]interface{}) {
 	}
 	classC := func(k string, v []byte) string { return vClassChain(k, x) }
 	crash := []interface{}{}
-	for k := 0; k <= len(units); k++ {
-		rec := map[string]interface{}{"k": k, "init_panic": "", "recover_err": "", "best": "", "pred": []string{},
-			"marker_after": false, "legit": false, "converged": false}
+	nrec2 := 0
+	for _, cut := range vCuts(units, c.Partial) {
+		k := cut.k
+		rec := map[string]interface{}{"k": k, "p": cut.p, "legit": false, "converged": false}
 		crash = append(crash, rec)
-		cm, sm := replayUnits(baseChain, baseState, units, k)
-		e.seq++
-		dir := filepath.Join(e.tmp, fmt.Sprintf("crash-%d", e.seq))
-		if err := vWriteSnapshot(dir, cm, sm); err != nil {
-			rec["init_panic"] = "engine: " + err.Error()
-			continue
+		if cut.p > 0 {
+			rec["bulk_store"] = units[k].Store
+			rec["bulk_classes"] = vUnitClasses(&units[k], x)
 		}
-		e.note(fmt.Sprintf("case %s restart k=%d of %d", c.ID, k, len(units)))
-		r, perr := e.newNode(dir)
+		cm, sm := vContents(baseChain, baseState, units, cut)
+		hadMarker := len(cm[string(dbkey.ReOrg())]) != 0
+		rec["marker_before"] = hadMarker
+		what := fmt.Sprintf("case %s restart k=%d p=%d of %d", c.ID, k, cut.p, len(units))
+		r, dir := e.restart(x, cm, sm, rec, what)
 		if r == nil {
-			rec["init_panic"] = perr
 			os.RemoveAll(dir)
 			continue
 		}
-		if x.c.OrphanCap >= 1 && x.c.OrphanCap <= 100 {
-			r.cs.op = NewOrphanPool(x.c.OrphanCap)
-		}
-		if err := r.cs.Recover(); err != nil {
-			rec["recover_err"] = err.Error()
-		}
-		r.cs.setRecovered(true)
-		best := bestOf(r.cs)
-		rec["best"] = best
-		pred, _ := e.predicates(r, x)
-		_, p3 := e.rawScan(r, x)
-		pred = append(pred, p3...)
-		if pred == nil {
-			pred = []string{}
-		}
-		rec["pred"] = pred
-		rec["sdbroot"] = hx(r.cs.sdb.GetRoot())
-		rec["marker_after"] = len(r.cs.cdb.store.Get(dbkey.ReOrg())) != 0
+		best := rec["best"].(string)
 		// the crash happened while unit k was being written (k == n: after the last unit)
 		oldTip, newTip := bests[len(bests)-1], bests[len(bests)-1]
 		if k < len(units) && units[k].Arrival >= 0 {
@@ -438,22 +650,21 @@ func (e *vEngine) runCrash(x *vCtx, out map[string]interface{}) {
 			mid = true // in-memory best of the crash-free run when the last surviving unit was written
 		}
 		rec["legit_mid"] = mid
-		// replay all arrivals on the recovered node
+		// replay all arrivals (twice) on the recovered node
 		rerrs := 0
 		for pass := 0; pass < 2; pass++ {
-		for i := range c.Arrivals {
-			r.cc.lib = 0
-			if i < len(c.Lib) {
-				r.cc.lib = c.Lib[i]
+			for i := range c.Arrivals {
+				r.cc.lib = 0
+				if i < len(c.Lib) {
+					r.cc.lib = c.Lib[i]
+				}
+				if err := vSafeAdd(r, x.blks[c.Arrivals[i]].clone()); err != nil {
+					rerrs++
+				}
 			}
-			if err := vSafeAdd(r, x.blks[c.Arrivals[i]].clone()); err != nil {
-				rerrs++
-			}
-			r.drainVerifier()
-		}
 		}
 		rec["replay_errs"] = rerrs
-		rec["replay_best"] = bestOf(r.cs)
+		rec["replay_best"] = vBestOf(r.cs)
 		dc := vStoreDiff(dumpStore(r.cs.cdb.store), fChain, classC)
 		ds := vStoreDiff(dumpStore(r.cs.sdb.VerifStore()), fState, vClassState)
 		rec["converged"] = len(dc) == 0 && len(ds) == 0
@@ -462,7 +673,15 @@ func (e *vEngine) runCrash(x *vCtx, out map[string]interface{}) {
 		}
 		r.stop()
 		os.RemoveAll(dir)
+		if hadMarker && (c.Recrash == "units" || c.Recrash == "ops") {
+			e.recrash(x, cm, sm, rec, c.Recrash, what)
+			if l, ok := rec["recrash"].([]interface{}); ok {
+				nrec2 += len(l)
+			}
+		}
 	}
 	e.note(fmt.Sprintf("case %s done", c.ID))
 	out["crash"] = crash
+	out["ncrash"] = len(crash)
+	out["nrecrash"] = nrec2
 }
